@@ -163,7 +163,8 @@ class BiWordFilter(Filter):
 
         # If no bi-words were emitted, that is, the token stream only had
         # a single token, then emit that single token.
-        if not atleastone:
+        if not atleastone and prev_text is not None:
+            # There was only one token in the stream: pass it through
             yield token
 
 
